@@ -75,13 +75,26 @@ def gen_tables(rng, tier, max_h=40, max_p=80):
         for k in ('Acent', 'Asat', 'Bcent', 'Bsat', 'ic', 'Ccent', 'Csat'):
             if k in d and rng.random() < 0.15:
                 del d[k]
+        if rng.random() < 0.25:
+            # redshift-evolving HOD: logM_cut and logM1 move by *_pr * (a(z) - a(z_pivot))
+            d['z_pivot'] = rng.choice([0.8, 0.2, 0.5])
+            d['logM_cut_pr'] = rng.choice([0.0, rng.uniform(-3.0, 3.0)])
+            d['logM1_pr'] = rng.choice([0.0, rng.uniform(-3.0, 3.0)])
         return d
+    origin = None if rng.random() < 0.7 else [rng.uniform(-L, L) * 3 for _ in range(3)]
+    if origin is not None and rng.random() < 0.4:
+        # degenerate but legal: a host and a particle sitting exactly on the light-cone observer
+        origin = [rng.uniform(-L / 2, L / 2) for _ in range(3)]
+        if halos:
+            rng.choice(halos)['pos'] = list(origin)
+        if parts:
+            rng.choice(parts)['pos'] = list(origin)
     tracer_order = list(tracers)
     if rng.random() < 0.5:
         rng.shuffle(tracer_order)
     return {'L': L, 'halos': halos, 'parts': parts, 'tracers': {t: tr(t) for t in tracers}, 'tracer_order': tracer_order,
             'Mpart': 2.1e9, 'velz2kms': rng.uniform(20.0, 200.0),
-            'rsd': rng.random() < 0.6, 'origin': None if rng.random() < 0.7 else [rng.uniform(-L, L) * 3 for _ in range(3)],
+            'rsd': rng.random() < 0.6, 'origin': origin,
             'enable_ranks': rng.random() < 0.4, 'want_AB': rng.random() < 0.6, 'want_shear': rng.random() < 0.5,
             'z': 0.5}
 
@@ -104,6 +117,12 @@ class Model:
 
     def _defaults(self, name):
         d = dict(self.tr[name])
+        # redshift evolution first (documented: logM_cut, logM1 += *_pr * (1/(1+z) - 1/(1+z_pivot))); every default
+        # that refers to logM1 refers to the evolved one
+        z = self.c['z']
+        da = 1.0 / (1 + z) - 1.0 / (1 + d.get('z_pivot', z))
+        d['logM_cut'] = d['logM_cut'] + d.get('logM_cut_pr', 0.0) * da
+        d['logM1'] = d['logM1'] + d.get('logM1_pr', 0.0) * da
         d.setdefault('Acent', 0.0), d.setdefault('Asat', 0.0), d.setdefault('Bcent', 0.0), d.setdefault('Bsat', 0.0)
         d.setdefault('ic', 1.0)
         if name == 'ELG':
@@ -336,6 +355,8 @@ def match(got, ncent, cands_cent, cands_sat, rtol=1e-9):
             return False
         for c in COLS[:-1]:
             a, b = g[c], r[c]
+            if a != a and b != b:
+                continue      # both undefined (a galaxy exactly on the observer has no line of sight: 0/0 in model and code)
             if not (abs(a - b) <= rtol * max(abs(a), abs(b), 1e-300) + 1e-12):
                 return False
         return True
